@@ -1083,8 +1083,10 @@ def check_history(ctx, specs, tag, perms=3, alone=False):
                                    culprit=find_culprit(specs, j)))
             else:
                 ctx.count("history:auto-differs-from-documented-default-but-not-by-history")
-    # a fresh interpreter, another order
-    order = list(range(n))[::-1]
+    # a fresh interpreter, and the order in which every request was FIRST computed above exactly reversed: of any two requests
+    # that share the key of some memo, the one that was served from the other's entry above is now computed first and is right,
+    # so its value differs from the recorded one - whatever the random permutations above happened to be
+    order = sorted(range(n), key=lambda j: first_seen.get(j, (0, 0)), reverse=True)
     runs = [("reversed", order)]
     if alone:
         runs += [("alone%d" % j, [j]) for j in range(n)]
